@@ -13,7 +13,8 @@ META = {
                                'route-later', 'kind-text', 'kind-ident', 'kind-num', 'kind-fdoubl', 'kind-uvari', 'kind-unorm',
                                'kind-dtime', 'kind-dtf', 'kind-status', 'kind-mnum', 'kind-dim', 'kind-lname', 'kind-objref',
                                'kind-ref:channel', 'kind-ref:zone', 'default-FIELD-NAME', 'default-LONG-NAME',
-                               'codec-contract-evals', 'reassign-after-write', 'plain-second-write']},
+                               'codec-contract-evals', 'reassign-after-write', 'plain-second-write', 'route-later-set_attributes',
+                               'origin-file-set-number-left-to-library']},
     'assumptions': ['vf/schema.py states the attribute labels / value kinds of the 22 object types independently of the code',
                     'date-times compare within 1 ms of the same UTC instant; numbers by numeric value in the decoded code'],
 }
